@@ -102,7 +102,7 @@ Definition exempt : list (string * exclass) := [
 Definition known_gaps : list string := [].
 
 (* AUDITED READERS.  For every exempt member: the source files that are allowed to READ it (anything but a plain
-   assignment).  Baseline = the readers found in the tree at /repo commit 5e0a0a8, each reviewed against the reason class
+   assignment).  Baseline = the readers found in the tree at /repo commit 5e0a0a8 (two pairs added at 2dcce48, reasons inline), each reviewed against the reason class
    above (e.g. ri_trace.mode / ri_mercurius.mode are NONE/0 between steps and in a fresh simulation, so particle.c
    reading them in a user-called remove() sees the same value in the original and in a restored simulation; ri_trace.com_vel
    is read by collision.c only inside a TRACE step; gravity_cs by IAS15 only after the force evaluation of the same step).
@@ -130,7 +130,7 @@ Definition exempt_readers : list (string * list string) := [
   ("simulationarchive_filename", ["rebound.c"; "simulationarchive.c"]);
   ("ri_whfast.p_temp", ["integrator_saba.c"; "integrator_whfast.c"]);
   ("ri_whfast.N_allocated_tmp", ["integrator_saba.c"; "integrator_whfast.c"]);
-  ("ri_whfast.recalculate_coordinates_but_not_synchronized_warning", ["integrator_whfast.c"]);
+  ("ri_whfast.recalculate_coordinates_but_not_synchronized_warning", ["integrator_saba.c"; "integrator_whfast.c"])   (* integrator_saba.c (014ae4c): same warn-once test as in WHFast, decides only whether a warning is emitted *);
   ("ri_whfast512.recalculate_constants", []);
   ("ri_ias15.map", ["integrator_ias15.c"]);
   ("ri_ias15.N_allocated_map", ["integrator_ias15.c"]);
@@ -161,7 +161,7 @@ Definition exempt_readers : list (string * list string) := [
   ("ri_trace.current_Ks", ["gravity.c"; "integrator_trace.c"; "particle.c"]);
   ("ri_trace.current_C", ["integrator_trace.c"]);
   ("ri_trace.force_accept", ["integrator_trace.c"]);
-  ("ri_bs.nbody_ode", ["integrator_bs.c"]);
+  ("ri_bs.nbody_ode", ["integrator.c"; "integrator_bs.c"])   (* integrator.c (6a5def5/01f8c0c): part1 frees a stale BS N-body ode when integrator != BS; a restored simulation has NULL and skips it, afterwards both have NULL; odes are not persisted (ExOde), no persisted quantity depends on it *);
   ("ri_bs.sequence", ["integrator_bs.c"]);
   ("ri_bs.cost_per_step", ["integrator_bs.c"]);
   ("ri_bs.cost_per_time_unit", ["integrator_bs.c"]);
